@@ -730,9 +730,43 @@ class Desugar(ast.NodeTransformer):
             node.body = [st for st in node.body if not (isinstance(st, ast.FunctionDef) and st.name in found)]
         return found
 
+    def _local_partials(self, node) -> Dict[str, ast.Call]:
+        """locals bound once, at the top level of the function body, to functools.partial(f, <simple arguments>) whose argument
+        names are never re-bound in the function: calls of the local are calls of f"""
+        out: Dict[str, ast.Call] = {}
+        stores: Dict[str, int] = {}
+        for x in ast.walk(node):
+            if isinstance(x, ast.Name) and isinstance(x.ctx, (ast.Store, ast.Del)):
+                stores[x.id] = stores.get(x.id, 0) + 1
+        params = {a.arg for a in node.args.posonlyargs + node.args.args + node.args.kwonlyargs}
+        for st in node.body:
+            if isinstance(st, ast.Assign) and len(st.targets) == 1 and isinstance(st.targets[0], ast.Name) and isinstance(st.value, ast.Call) and \
+                    ast.unparse(st.value.func) in ("functools.partial", "partial") and st.value.args and isinstance(st.value.args[0], (ast.Name, ast.Attribute)):
+                c = st.value
+                nm = st.targets[0].id
+                if stores.get(nm) != 1 or nm in params or not all(_simple(a) for a in c.args) or not all(k.arg is not None and _simple(k.value) for k in c.keywords):
+                    continue
+                used = {x.id for a in list(c.args[1:]) + [k.value for k in c.keywords] for x in ast.walk(a) if isinstance(x, ast.Name)}
+                if any(stores.get(u, 0) > 0 for u in used):
+                    continue
+                # only ever called
+                loads = [x for x in ast.walk(node) if isinstance(x, ast.Name) and x.id == nm and isinstance(x.ctx, ast.Load)]
+                called = [x for x in ast.walk(node) if isinstance(x, ast.Call) and isinstance(x.func, ast.Name) and x.func.id == nm]
+                if loads and len(loads) == len(called):
+                    out[nm] = c
+        return out
+
     def visit_FunctionDef(self, node):
         self.func_stack.append(node)
         saved = dict(self.generators)
+        saved_partials = dict(self.partials)
+        if len(self.func_stack) == 1 or True:
+            lp = self._local_partials(node)
+            if lp:
+                self.partials.update(lp)
+                self.local_partial_names = getattr(self, "local_partial_names", set()) | set(lp)
+                node.body = [st for st in node.body if not (isinstance(st, ast.Assign) and len(st.targets) == 1 and isinstance(st.targets[0], ast.Name) and st.targets[0].id in lp
+                                                             and st.value is lp[st.targets[0].id])]
         try:
             if self.carriers and not self.class_is_carrier:
                 self._inline_carriers(node)
@@ -741,6 +775,7 @@ class Desugar(ast.NodeTransformer):
             return self.generic_visit(node)
         finally:
             self.generators = saved
+            self.partials = saved_partials
             self.func_stack.pop()
 
     # ------------------------------------------------------------------ private carrier classes
@@ -916,7 +951,8 @@ class Desugar(ast.NodeTransformer):
     # ------------------------------------------------------------------ getattr
     def visit_Call(self, node: ast.Call):
         node = self.generic_visit(node)
-        if isinstance(node.func, ast.Name) and node.func.id in self.partials and not (self.func_stack and self._is_local(node.func.id)) and \
+        if isinstance(node.func, ast.Name) and node.func.id in self.partials and \
+                not (self.func_stack and self._is_local(node.func.id) and node.func.id not in getattr(self, "local_partial_names", set())) and \
                 not any(isinstance(a, ast.Starred) for a in node.args) and all(k.arg is not None for k in node.keywords):
             pc = self.partials[node.func.id]
             kws = {k.arg: k.value for k in pc.keywords}
